@@ -494,6 +494,37 @@ func (m *model) call(f *mFunc, a []uint64) ([]uint64, string) {
 	case "gsetf":
 		in.globs[s.A].fn = m.refK(in, a[0]).fn
 		return nil, ""
+	case "galias":
+		gw, gr := in.globs[s.A], in.globs[s.B]
+		v128 := gw.typ.Type == wenc.V128
+		out := []uint64{gr.lo}
+		if v128 {
+			out = append(out, gr.hi)
+			gw.lo, gw.hi = a[0], a[1]
+		} else {
+			gw.lo = maskVal(gw.typ.Type, a[0])
+		}
+		out = append(out, gr.lo)
+		if v128 {
+			out = append(out, gr.hi)
+		}
+		return out, ""
+	case "talias":
+		tw, tr := in.tabs[s.A], in.tabs[s.B]
+		if u(0) >= uint32(len(tr.slots)) {
+			return nil, trapTable
+		}
+		pre := b2u(tr.slots[u(0)].fn == nil)
+		if u(0) >= uint32(len(tw.slots)) {
+			return nil, trapTable
+		}
+		tw.slots[u(0)] = m.refK(in, a[1])
+		return []uint64{pre, b2u(tr.slots[u(0)].fn == nil)}, ""
+	case "tgalias":
+		tw, tr := in.tabs[s.A], in.tabs[s.B]
+		pre := uint64(len(tr.slots))
+		gr := uint64(tabGrow(tw, u(0), mRef{}))
+		return []uint64{pre, gr, uint64(len(tr.slots))}, ""
 	case "g2t":
 		t := in.tabs[s.B]
 		if u(0) >= uint32(len(t.slots)) {
